@@ -4,6 +4,7 @@ go 1.23.0
 
 require (
 	github.com/go-critic/go-critic v0.0.0
+	github.com/go-toolsmith/astcopy v1.1.0
 	github.com/go-toolsmith/astequal v1.2.0
 	github.com/go-toolsmith/pkgload v1.2.2
 	github.com/go-toolsmith/strparse v1.1.0
@@ -15,7 +16,6 @@ require (
 
 require (
 	github.com/go-toolsmith/astcast v1.1.0 // indirect
-	github.com/go-toolsmith/astcopy v1.1.0 // indirect
 	github.com/go-toolsmith/astfmt v1.1.0 // indirect
 	github.com/go-toolsmith/astp v1.1.0 // indirect
 	github.com/google/go-cmp v0.7.0 // indirect
